@@ -569,7 +569,9 @@ def bounded(ctx):
                             "upper.GBK": gb_text("upper", p3), "Mixed.Gb": gb_text("Mixed", p1),
                             # a stem with characters that mean something in a wildcard pattern
                             "pK[038]-x.gb": gb_text("pK[038]-x", p2),
-                            "sub/zzz.gb": gb_text("zzz", p3), "sub/deep/yyy.gb": gb_text("yyy", p3)})
+                            "sub/zzz.gb": gb_text("zzz", p3), "sub/deep/yyy.gb": gb_text("yyy", p3),
+                            # directories whose own names end in a supported extension are not records
+                            "backup.gb/inner.gb": gb_text("inner", p3), "old.gbk/readme.txt": "x", "attic.genbank/a.gb": gb_text("a", p1)})
         # (file stems need not be the identifiers written inside the files: `renamed.gb` holds the record `inner_id`)
         d2 = make_dir(ctx, {"alpha.gb": gb_text("alpha", p3, "CmR"), "delta.gb": gb_text("inner_id", p2, "SpecR")})
         dirs += [d1, d2]
